@@ -8,7 +8,7 @@ COQ_FILES = ["Props/C01.v", "Obl/DispatchOk.v", "Obl/EnumsOk.v"]
 
 
 def correspondence(ctx):
-    n = 400 if ctx.tier == "thorough" else 50
+    n = 400 if ctx.tier == "thorough" else 52
     CC.run_sessions(ctx, "C01", n, lambda rng: dict(n_events=rng.choice([20,40,60]), burst=0.4, fault=0.15, bad=0.2), lambda rng: {})
 
 
